@@ -192,9 +192,10 @@ fn gen_cases(ctx: &Ctx) -> Vec<Case> {
             }
         }
     }
-    // (c) fake at the ends of user space
-    for &r in &[Region::M64, Region::PieLike, Region::Top, Region::Lowest] {
-        for &a in &[0x7fff_ffff_d000usize - 0x10_0000, 0x20_0000usize + 7] {
+    // (c) fake at the ends of user space and in every absolute-address class (< 2^31, [2^31, 2^32), just
+    // above 2^32): an encoder may key on the absolute address, not on the displacement
+    for &r in &[Region::M64, Region::PieLike, Region::Top, Region::Lowest, Region::Above4G, Region::LibLike] {
+        for &a in &[0x7fff_ffff_d000usize - 0x10_0000, 0x20_0000usize + 7, 0x7f00_0000usize + 3, 0x8100_0000usize + 1, 0x9000_0000usize, 0xfe00_0000usize + 0x55, 0x1_0200_0000usize + 9] {
             v.push(Case { region: r, pgoff: 0x40, second_rx: true, hole: Hole::Natural, fake: FakeAt::Abs(a), flavour: Flavour::Raw });
         }
     }
